@@ -15,7 +15,7 @@ OtherSingles == [D EXCEPT !.mjq = {"none", "any"}, !.minc = {"none"}, !.mgrp = {
                           !.okinds = {"schedule", "validating", "mutating", "conversion", "onStartup"},
                           !.onamed = {TRUE, FALSE}, !.ogrp = {"", "g1", "g2"}, !.oinc = {"none", "main", "aux", "both"},
                           !.initsA = {{}, {"a1", "a2"}}, !.initsB = {{"b1"}},
-                          !.trigs = {"StartUp", "Tick", "Request"}]
+                          !.trigs = {"StartUp", "Tick", "Request", "BootTick", "BootRequest"}]
 NoAuxSingles == [D EXCEPT !.auxon = {FALSE}, !.minc = {"none", "self"}, !.okinds = {"none", "schedule", "validating"},
                           !.ogrp = {"", "g1"}, !.oinc = {"none", "main"},
                           !.initsA = {{}, {"a1", "a2"}}, !.syncsels = {{}, {"main"}}]
